@@ -5,6 +5,7 @@ import someip.config as C
 import someip.header as H
 import someip.sd as SD
 from contracts import looplib as LL
+from contracts.common import check_frame
 from contracts import spec_config as SCFG
 from contracts import spec_sd as SS
 from contracts import c05 as C05
@@ -74,8 +75,10 @@ def ob_send_find_services(vc):
 
     vc.stub(disc, "_service_found", service_found)
 
+    heap = vc.snapshot(prot=prot)
     o = vc.outcome(vc.drive, vc.body(SD.ServiceDiscover.send_find_services)(disc), log, interference, False)
     vc.check(o.kind == "ret", "send_find_services.ends_normally")
+    check_frame(vc, heap, "send_find_services", ())
     if n == 0:
         vc.cover("nothing-watched")
         vc.check_eq(log, [], "send_find_services.nothing_watched_nothing_sent")
@@ -135,7 +138,9 @@ def ob_service_found(vc):
                 vc.assume(other.service_id != s.service_id)
             disc.found_services.store[addr][s] = (disc._notify_service_stopped, None)
             stored.append(s)
+    heap = vc.snapshot(prot=prot)
     r = vc.body(SD.ServiceDiscover._service_found)(disc, f)
+    check_frame(vc, heap, "_service_found", ())
     exp = False
     for s in stored:
         exp = exp or f.matches_service(s)
@@ -146,7 +151,9 @@ def ob_discover_start(vc):
     loop = vc.install_loop(LL.FakeLoop(vc.real("now", 0)))
     prot, sent = SS.gen_sd_protocol(vc, "prot")
     disc = prot.discovery
+    heap = vc.snapshot(prot=prot)
     vc.body(SD.ServiceDiscover.start)(disc)
+    check_frame(vc, heap, "discover.start", ("prot.discovery.task",))
     vc.check(disc.task is not None and len(loop.tasks) == 1, "discover.start.creates_the_find_task")
     vc.check_eq(len(sent), 0, "discover.start.sends_nothing_itself")
 
